@@ -337,6 +337,23 @@ func exec(h sink, s *state, op string) string {
 	case "tick":
 		s.vnow += int64(atoi(w[1]))
 		return "ok | " + dump(s.vb.Model())
+	case "empty":
+		// empty() gates block deletion: it must count cooling-down addresses as allocations (deleting the
+		// block would discard their ReleasedAt stamps and the free queue)
+		e := s.vb.Empty()
+		if e {
+			for o := range s.vb.Model().Allocations {
+				if cooling(s.vb.Model(), o) {
+					h.OracleFail("empty-with-cooling-address", "empty() is true for a block that still holds an address in cooldown: the block may be deleted and the address handed out again before its cooldown passed",
+						map[string]any{"op": op, "ordinal": o, "block": dump(s.vb.Model())})
+					break
+				}
+			}
+		}
+		if e {
+			return "1 | " + dump(s.vb.Model())
+		}
+		return "0 | " + dump(s.vb.Model())
 	}
 
 	b := s.vb.Model()
@@ -666,7 +683,7 @@ func genCase(h *rt.H) []string {
 	}
 	first := fmt.Sprintf("new %d %d", n, seq0)
 	if h.Chance(0.15) && n >= 4 {
-		first = fmt.Sprintf("newr %d %d %d %d %s %d", n, seq0, h.Intn(3), h.Intn(3), rt.Pick(h, []string{"s:windowsreservedipamhandle", "s:a"}), 2+h.Intn(3))
+		first = fmt.Sprintf("newr %d %d %d %d %s %d", n, seq0, h.Intn(3), h.Intn(3), rt.Pick(h, []string{"s:windows-reserved-ipam-handle", "s:Windows-Reserved-IPAM-handle", "s:a"}), 2+h.Intn(3))
 	}
 	emit(first)
 	var snaps []snap // (ordinal, seq, handle) seen at some point: sources of stale requests
@@ -768,7 +785,11 @@ func genCase(h *rt.H) []string {
 		case k < 19:
 			emit(fmt.Sprintf("gc %d", cd()))
 		default:
-			emit("bump")
+			if h.Bool() {
+				emit("empty")
+			} else {
+				emit("bump")
+			}
 			mut = false
 		}
 		if mut && (discipline || h.Chance(0.5)) {
